@@ -121,6 +121,11 @@ def specs(prop='C02'):
             st['cleared'] = z3.Store(st['cleared'], sym._z(self.i), z3.BoolVal(True))
             st['n_clear'] += 1
 
+        def _sym_truth(self):
+            # whether an ancestor's memo currently holds anything is arbitrary (it depends on earlier queries): a flush
+            # that consults it to stop early would leave ancestors above an empty one stale
+            return truth(_wrap_bool(z3.Function('anc_cache_nonempty', z3.IntSort(), z3.BoolSort())(sym._z(self.i))))
+
     def run_touchall(ctx, case, loc, pre, label):
         st = {'depth': ctx.int('depth'), 'cleared': z3.K(z3.IntSort(), z3.BoolVal(False)), 'n_clear': 0,
               'a': SObj('a', {})}
